@@ -274,6 +274,35 @@ InGen(doc, args, out) ==
           /\ \A f \in Range(out[j].fields) : \E gf \in g.fields :
                 gf.name = f.name /\ gf.key = f.key /\ gf.tag = f.tag /\ (gf.free \/ f.type \in gf.types)
 
+\* ------------------------------------------------------------------ the input: two blindness laws
+\* A run of the generator is determined by more than [doc, args]:
+\*   deco   the ATTRIBUTES the schema file carries besides what doc abstracts (object names,
+\*          property names, type IDs, ids) - what a real schema description has: min / max of
+\*          integers and floats (negative, zero, positive, fractional) and of strings, lists and
+\*          maps, pattern, units, default, required, display (multi-line description),
+\*          conflicts / required_if / required_if_not lists, examples.  A deco is the name of
+\*          one way to decorate a document; what it writes is the harness's business.
+\*   route  HOW the generator is invoked, i.e. its argv[0]: the pre-built binary by its
+\*          absolute path, the same binary at another path, by a relative path, or the
+\*          documented "go run gen.go schema_input.yaml [ARG]" (a fresh temporary executable on
+\*          every run).
+\* The statement quantifies over schema FILES and names what the output must contain by objects,
+\* properties, type IDs and references alone; and it speaks of "the same input" of a run.  Hence
+\*   AttributeBlind   what a run must emit, and that it finishes, does not depend on deco:
+\*                    Expected takes deco and ignores it;
+\*   InvocationBlind  what a run emits does not depend on route: observations are recorded
+\*                    under ObsKey, of which route is no part, so the observations of one input
+\*                    made under different routes must be identical (byte hash included).
+\* (Whether the BYTES may differ between two decorations of one document - a comment made from
+\* an attribute - the statement does not say: deco is part of ObsKey; a difference is drift.)
+Decos  == {"bare", "limits", "attributes", "full"}
+Routes == {"binary", "binary_copy", "binary_relative", "go_run"}
+Expected(doc, args, deco) == Gen(doc, args)
+ObsKey(doc, args, deco, route) == [doc |-> doc, args |-> args, deco |-> deco]
+AttributeBlind(doc, args) == \A d1, d2 \in Decos : Expected(doc, args, d1) = Expected(doc, args, d2)
+InvocationBlind(doc, args, deco) ==
+    \A r1, r2 \in Routes : ObsKey(doc, args, deco, r1) = ObsKey(doc, args, deco, r2)
+
 \* ------------------------------------------------------------------ Observe: histories
 \* "Running it again on the same input produces byte-identical output": seen[input] is the
 \* first observation (struct sequence and byte hash); every later observation of the same
